@@ -4207,7 +4207,9 @@ def qr(a, mode='reduced', inner_labels=[None, None], cutoff=None, pos_diag_R=Fal
                 continue
         if pos_diag_R:
             r_diag = np.diag(r_block)
-            phase = r_diag / np.abs(r_diag)
+            phase = np.ones_like(r_diag)
+            nonzero = r_diag != 0  # (a vanishing diagonal entry of R has no phase to fix)
+            phase[nonzero] = r_diag[nonzero] / np.abs(r_diag[nonzero])
             K = len(r_diag)
             if K < q_block.shape[1]:
                 q_block[:, :K] *= phase[np.newaxis, :]
